@@ -532,7 +532,9 @@ func (k Keeper) CollectDEXRevenue(ctx sdk.Context) (sdk.Coins, sdk.DecCoins, map
 		revenueAddress := ammtypes.NewPoolRevenueAddress(poolId)
 
 		// Transfer revenue to a single wallet of DEX revenue wallet.
-		revenue := k.bankKeeper.GetAllBalances(ctx, revenueAddress)
+		// Only spendable coins can be collected: anybody can create a locked vesting account at a revenue
+		// address that has not received anything yet, and trying to move its locked coins fails the send
+		revenue := k.bankKeeper.SpendableCoins(ctx, revenueAddress)
 		if revenue.IsAllPositive() {
 			err = k.bankKeeper.SendCoinsFromAccountToModule(ctx, revenueAddress, types.ModuleName, revenue)
 			if err != nil {
